@@ -238,7 +238,7 @@ void convertCheck(const std::string& bytes, const std::string& src, uint64_t see
 }
 
 struct Plan { size_t api; int optsPerReal; };
-Plan plan() { return g_cfg.tier ? Plan{9000, 32} : Plan{160, 6}; }
+Plan plan() { return g_cfg.tier ? Plan{9000, 32} : Plan{800, 6}; }
 
 void run(size_t idx) {
 	Plan p = plan();
